@@ -285,7 +285,10 @@ def expr_role(e, roles):
 
 
 def result_columns(hist):
-    cols, roles = list(TABLES[hist["table"]]), dict(TABLE_ROLES[hist["table"]])
+    if "columns" in hist:
+        cols, roles = list(hist["columns"]), dict(hist.get("roles") or {c: "n" for c in hist["columns"]})
+    else:
+        cols, roles = list(TABLES[hist["table"]]), dict(TABLE_ROLES[hist["table"]])
     states = [(cols, roles)]
     for st in hist["steps"]:
         cols, roles = step_columns(st, cols, roles, states)
@@ -294,7 +297,10 @@ def result_columns(hist):
 
 
 def result_roles(hist):
-    cols, roles = list(TABLES[hist["table"]]), dict(TABLE_ROLES[hist["table"]])
+    if "columns" in hist:
+        cols, roles = list(hist["columns"]), dict(hist.get("roles") or {c: "n" for c in hist["columns"]})
+    else:
+        cols, roles = list(TABLES[hist["table"]]), dict(TABLE_ROLES[hist["table"]])
     states = [(cols, roles)]
     for st in hist["steps"]:
         cols, roles = step_columns(st, cols, roles, states)
